@@ -350,7 +350,14 @@ impl Context {
                 Phase::Drop => unreachable!(),
             }
 
-            if run_until == RunUntil::PayDebt && !(cx.metrics.allocation_debt() > 0.0) {
+            // Don't yield for paid-off debt when the only thing left in this cycle is the final
+            // (empty) sweep step: debt is defined as zero for an arena without any `Gc`s, so when
+            // the last object is freed we would otherwise return one step short, still in
+            // `Phase::Sweep`, instead of finishing the cycle.
+            if run_until == RunUntil::PayDebt
+                && !(cx.metrics.allocation_debt() > 0.0)
+                && !(cx.phase == Phase::Sweep && cx.sweep.is_none())
+            {
                 break;
             }
         }
